@@ -27,6 +27,7 @@ package main
 import (
 	"errors"
 	"fmt"
+	"io"
 	"os"
 	"path/filepath"
 	"reflect"
@@ -435,6 +436,42 @@ func (ee *evalEngine) render(name string, ctx map[string]interface{}) (out strin
 // evalEngineTweak, when set, configures every engine newEvalEngine creates before anything is registered (engine
 // settings a property says nothing about must not matter to it)
 var evalEngineTweak func(*twig.Engine)
+
+// evalSettings: engine settings no property of the evaluator speaks about
+var evalSettings = []struct {
+	name string
+	set  func(*twig.Engine)
+}{
+	{"SetDebug(true)", func(e *twig.Engine) { twig.SetDebugWriter(io.Discard); e.SetDebug(true) }},
+	{"SetCache(false)", func(e *twig.Engine) { e.SetCache(false) }},
+	{"SetDevelopmentMode(true)", func(e *twig.Engine) { twig.SetDebugWriter(io.Discard); e.SetDevelopmentMode(true) }},
+	{"SetAutoReload(true)", func(e *twig.Engine) { e.SetAutoReload(true) }},
+}
+
+// evalUnderSettings renders the case's main template with the given context on engines configured with each of
+// evalSettings (prepare, when not nil, gives the engine whatever the caller gave its own) and describes the first
+// outcome that differs from (out, class); "" when none does.
+func evalUnderSettings(c Case, ctx map[string]interface{}, prepare func(*evalEngine), out, class string) string {
+	for _, v := range evalSettings {
+		evalEngineTweak = v.set
+		ee := newEvalEngine(c)
+		evalEngineTweak = nil
+		var out2, class2 string
+		if !ee.regOK {
+			out2, class2 = "", "parse"
+		} else {
+			if prepare != nil {
+				prepare(ee)
+			}
+			out2, class2, _ = ee.render(c.str("main"), ctx)
+		}
+		twig.SetDebugLevel(twig.DebugOff)
+		if out2 != out || class2 != class {
+			return "on an engine with " + v.name + ": " + evalObserved(out2, class2) + " instead of " + evalObserved(out, class)
+		}
+	}
+	return ""
+}
 
 func runEvalCase(c Case) (out string, errClass string, spyCounts map[string]int, detail string) {
 	ee := newEvalEngine(c)
